@@ -30,7 +30,60 @@ type evalModel struct {
 	ViaSaves  []viaSave              // record writes performed by a helper called from Evaluate
 	BodyFn    *ssa.Function          // the function that invokes Target.evaluate(): Evaluate itself, or a helper only Evaluate calls
 	BodySite  *ssa.Call              // in Evaluate: the call of BodyFn (nil when BodyFn is Evaluate)
+	SaveFns   map[*ssa.Function]int  // saveTargetInfo and the wrappers that pass their record parameter on to it: function -> index of the record argument
 	p         *core.Prog
+}
+
+// isSaveFn: f writes the record it is handed (saveTargetInfo itself or a wrapper around it).
+func (m *evalModel) isSaveFn(f *ssa.Function) bool {
+	_, ok := m.SaveFns[f]
+	return ok && f != nil
+}
+
+// recArg is the record argument of a call to a save function.
+func (m *evalModel) recArg(call *ssa.Call) ssa.Value {
+	if i, ok := m.SaveFns[core.Callee(call)]; ok && i < len(call.Call.Args) {
+		return call.Call.Args[i]
+	}
+	return call.Call.Args[len(call.Call.Args)-1]
+}
+
+// faithfulSave: the save function returns nil only where the underlying saveTargetInfo call returned nil.
+func (m *evalModel) faithfulSave(f *ssa.Function, depth int) bool {
+	if f == m.Save {
+		return true
+	}
+	if depth > 3 || !m.isSaveFn(f) {
+		return false
+	}
+	res := f.Signature.Results()
+	if res.Len() != 1 || !types.Implements(res.At(0).Type(), errorIface()) {
+		return false
+	}
+	var inner *ssa.Call
+	for _, c := range core.Calls(f) {
+		if call, ok := c.(*ssa.Call); ok && m.isSaveFn(core.Callee(c)) {
+			inner = call
+		}
+	}
+	if inner == nil || !m.faithfulSave(core.Callee(inner), depth+1) {
+		return false
+	}
+	n := 0
+	for _, ret := range core.ReturnsOf(f) {
+		vals := core.RetVals(ret)
+		if len(vals) != 1 {
+			return false
+		}
+		if !core.IsNilConst(vals[0]) {
+			continue
+		}
+		n++
+		if nn, known := m.p.FactsAt(ret).ErrNonNil(inner); !known || nn {
+			return false
+		}
+	}
+	return n > 0
 }
 
 // dom is dominance across Evaluate and its body helper.
@@ -74,12 +127,83 @@ func (m *evalModel) recordWrites() []struct {
 		}{s, m.savedLiteral(s)})
 	}
 	for _, v := range m.ViaSaves {
+		rec := m.recArg(v.Save)
+		// a save helper that is handed the record: the record is what the call site in Evaluate builds
+		if prm := paramBehind(rec); prm != nil && prm.Parent() == v.Save.Parent() {
+			if i := paramIndex(prm.Parent(), prm); i >= 0 && i < len(v.Site.Call.Args) {
+				out = append(out, struct {
+					Site *ssa.Call
+					Lit  savedLiteral
+				}{v.Site, recordOf(v.Site, v.Site.Call.Args[i])})
+				continue
+			}
+		}
 		out = append(out, struct {
 			Site *ssa.Call
 			Lit  savedLiteral
-		}{v.Site, recordOf(v.Save, v.Save.Call.Args[len(v.Save.Call.Args)-1])})
+		}{v.Site, recordOf(v.Save, rec)})
 	}
 	return out
+}
+
+// saveErrSites lists the calls in Evaluate whose error result is the error of a record write: the direct
+// saveTargetInfo calls, and the calls of a save helper that returns nil only where its own saveTargetInfo call returned nil.
+func (m *evalModel) saveErrSites() []*ssa.Call {
+	var out []*ssa.Call
+	for _, sv := range m.Saves {
+		if m.faithfulSave(core.Callee(sv), 0) {
+			out = append(out, sv)
+		}
+	}
+	for _, v := range m.ViaSaves {
+		h := v.Save.Parent()
+		res := h.Signature.Results()
+		if res.Len() != 1 || !types.Implements(res.At(0).Type(), errorIface()) || !m.faithfulSave(core.Callee(v.Save), 0) {
+			continue
+		}
+		faithful, n := true, 0
+		for _, ret := range core.ReturnsOf(h) {
+			vals := core.RetVals(ret)
+			if len(vals) != 1 {
+				faithful = false
+				continue
+			}
+			if !core.IsNilConst(vals[0]) {
+				continue
+			}
+			n++
+			if nn, known := m.p.FactsAt(ret).ErrNonNil(v.Save); !known || nn {
+				faithful = false
+			}
+		}
+		if faithful && n > 0 {
+			dup := false
+			for _, o := range out {
+				if o == v.Site {
+					dup = true
+				}
+			}
+			if !dup {
+				out = append(out, v.Site)
+			}
+		}
+	}
+	return out
+}
+
+// paramBehind: v is a parameter, or the load of the local a (struct) parameter was spilled into.
+func paramBehind(v ssa.Value) *ssa.Parameter {
+	if prm, ok := v.(*ssa.Parameter); ok {
+		return prm
+	}
+	if ld, ok := v.(*ssa.UnOp); ok && ld.Op == token.MUL {
+		if sv := core.SingleStore(ld.X); sv != nil {
+			if prm, ok := sv.(*ssa.Parameter); ok {
+				return prm
+			}
+		}
+	}
+	return nil
 }
 
 func isInvoke(c ssa.CallInstruction, iface, method string) bool {
@@ -111,7 +235,28 @@ func buildEvalModel(p *core.Prog, r *core.Result, rule string) *evalModel {
 	if fn == nil || save == nil {
 		return nil
 	}
-	m := &evalModel{Fn: fn, Save: save, Events: map[string][]*ssa.Call{}, p: p, BodyFn: fn}
+	m := &evalModel{Fn: fn, Save: save, Events: map[string][]*ssa.Call{}, p: p, BodyFn: fn, SaveFns: map[*ssa.Function]int{}}
+	m.SaveFns[save] = len(save.Params) - 1
+	for changed := true; changed; {
+		changed = false
+		for _, h := range p.ModuleFuncs() {
+			if h.Pkg != fn.Pkg || h.Blocks == nil || m.isSaveFn(h) || h == fn {
+				continue
+			}
+			for _, c := range core.Calls(h) {
+				call, ok := c.(*ssa.Call)
+				if !ok || !m.isSaveFn(core.Callee(c)) {
+					continue
+				}
+				if prm := paramBehind(m.recArg(call)); prm != nil && prm.Parent() == h {
+					if i := paramIndex(h, prm); i >= 0 {
+						m.SaveFns[h] = i
+						changed = true
+					}
+				}
+			}
+		}
+	}
 	for _, c := range core.Calls(fn) {
 		call, ok := c.(*ssa.Call)
 		if !ok {
@@ -128,7 +273,7 @@ func buildEvalModel(p *core.Prog, r *core.Result, rule string) *evalModel {
 			m.UpToDate = call
 		case isInvoke(c, "Target", "evaluate"):
 			m.Evaluate = call
-		case core.Callee(c) == save:
+		case m.isSaveFn(core.Callee(c)):
 			m.Saves = append(m.Saves, call)
 		case c.Common().IsInvoke():
 			if n, ok := c.Common().Value.Type().(*types.Named); ok && n.Obj().Name() == "Events" {
@@ -138,6 +283,9 @@ func buildEvalModel(p *core.Prog, r *core.Result, rule string) *evalModel {
 	}
 	// helpers: in-package static callees of Evaluate (depth <= 2)
 	seenH := map[*ssa.Function]bool{fn: true, save: true}
+	for sf := range m.SaveFns {
+		seenH[sf] = true
+	}
 	var addHelpers func(f *ssa.Function, depth int)
 	addHelpers = func(f *ssa.Function, depth int) {
 		for _, c := range core.Calls(f) {
@@ -176,7 +324,7 @@ func buildEvalModel(p *core.Prog, r *core.Result, rule string) *evalModel {
 		for _, c := range core.Calls(fn) {
 			site, ok := c.(*ssa.Call)
 			h := core.Callee(c)
-			if !ok || h == nil || h == save || h.Blocks == nil || h.Pkg != fn.Pkg {
+			if !ok || h == nil || m.isSaveFn(h) || h.Blocks == nil || h.Pkg != fn.Pkg {
 				continue
 			}
 			var ev *ssa.Call
@@ -195,7 +343,7 @@ func buildEvalModel(p *core.Prog, r *core.Result, rule string) *evalModel {
 				if !ok {
 					continue
 				}
-				if core.Callee(hc) == save {
+				if m.isSaveFn(core.Callee(hc)) {
 					m.Saves = append(m.Saves, call)
 				} else if hc.Common().IsInvoke() {
 					if n, ok := hc.Common().Value.Type().(*types.Named); ok && n.Obj().Name() == "Events" {
@@ -208,11 +356,11 @@ func buildEvalModel(p *core.Prog, r *core.Result, rule string) *evalModel {
 	for _, c := range core.Calls(fn) {
 		site, ok := c.(*ssa.Call)
 		cal := core.Callee(c)
-		if !ok || cal == nil || cal == save || cal.Blocks == nil || cal.Pkg != fn.Pkg || cal == m.BodyFn {
+		if !ok || cal == nil || m.isSaveFn(cal) || cal.Blocks == nil || cal.Pkg != fn.Pkg || cal == m.BodyFn {
 			continue
 		}
-		for _, c2 := range core.CallsTo(cal, save) {
-			if sv, ok := c2.(*ssa.Call); ok {
+		for _, c2 := range core.Calls(cal) {
+			if sv, ok := c2.(*ssa.Call); ok && m.isSaveFn(core.Callee(c2)) {
 				m.ViaSaves = append(m.ViaSaves, viaSave{Site: site, Save: sv})
 			}
 		}
@@ -409,7 +557,7 @@ type savedLiteral struct {
 }
 
 func (m *evalModel) savedLiteral(call *ssa.Call) savedLiteral {
-	return recordOf(call, call.Call.Args[len(call.Call.Args)-1])
+	return recordOf(call, m.recArg(call))
 }
 
 // recordOf resolves the record value v (an argument of call).
